@@ -9,7 +9,14 @@
 extern int next_backend_desc;
 
 /* ======================================================================= force (C20) */
+static void force_sweep(cfg_t c, size_t len);
 void suite_force(int tier) {
+    for (int n = 2; n <= (tier ? 9 : 7); n++) for (int k = 1; k < n; k++)
+        force_sweep((cfg_t){ 6, k, n - k, n - k, 1 + (n + k) % 2 }, 1 + rnd(5 * k));
+    for (int x = 0; x < n_xor_shapes; x++) {
+        if (xor_shapes[x][0] + xor_shapes[x][1] > (tier ? 16 : 12)) continue;
+        force_sweep((cfg_t){ 3, xor_shapes[x][0], xor_shapes[x][1], xor_shapes[x][2], 2 }, 1 + rnd(40));
+    }
     int cases = tier ? 300 : 50;
     for (int t = 0; t < cases; t++) {
         cfg_t c = cfg_random_ec();
@@ -58,6 +65,50 @@ void suite_force(int tier) {
         for (int i = 0; i < ncopies; i++) free(copies[i]);
         stripe_free(&s);
     }
+}
+
+/* direct oracle, exhaustive on small codes: every disjoint (missing, damaged) pair with at most
+   tolerance+1 members in total, every kind of damage in turn */
+static void force_sweep(cfg_t c, size_t len) {
+    stripe_t s;
+    if (stripe_make(&s, c, len, 0, 0) != 0) return;
+    int tol = cfg_tolerance(c), n = s.n, kind = 0;
+    unsigned char *copies[40];
+    for (uint64_t u = 0; u < (1ull << n); u++) {
+        int tot = __builtin_popcountll(u);
+        if (tot > tol + 1) continue;
+        /* every subset of u is the damaged part */
+        for (uint64_t bad = u;; bad = (bad - 1) & u) {
+            uint64_t gone = u & ~bad;
+            char *fr[40]; int cnt = 0, nc = 0;
+            for (int i = 0; i < n; i++) {
+                if ((gone >> i) & 1) continue;
+                if ((bad >> i) & 1) {
+                    unsigned char *m = malloc(s.flen); memcpy(m, s.all[i], s.flen);
+                    switch (kind++ % (c.ct == 2 ? 6 : 3)) {
+                    case 0: m[54] ^= 0x10; reseal(m); break;
+                    case 1: { uint32_t v; memcpy(&v, m + 55, 4); v += 1; memcpy(m + 55, &v, 4); reseal(m); } break;
+                    case 2: { uint32_t v = (uint32_t)n; memcpy(m, &v, 4); reseal(m); } break;
+                    case 3: m[HDR + (kind % (s.flen - HDR))] ^= 0x04; break;
+                    case 4: { m[HDR] ^= 0x80; uint32_t v = 0; if ((uint32_t)crc32(0, m + HDR, (uInt)(s.flen - HDR)) == v) v = 7; memcpy(m + 21, &v, 4); reseal(m); } break;
+                    default: m[s.flen - 1] ^= 0x01; break;
+                    }
+                    copies[nc++] = m; fr[cnt++] = (char *)m;
+                } else fr[cnt++] = s.all[i];
+            }
+            char *od = NULL; uint64_t ol = 0;
+            int rc = liberasurecode_decode(s.desc, fr, cnt, s.flen, 1, &od, &ol);
+            if (rc == 0) {
+                if (ol != s.len || memcmp(od, s.data, ol)) oracle_fail("C20", "forced decode returned wrong bytes: be=%d (%d,%d,%d) missing %llx damaged %llx", c.be, c.k, c.m, c.hd, (unsigned long long)gone, (unsigned long long)bad);
+                else if (c.be != 3 && tot > tol) oracle_fail("C20", "forced decode succeeded with only %d valid fragments: be=%d (%d,%d)", n - tot, c.be, c.k, c.m);
+                liberasurecode_decode_cleanup(s.desc, od);
+            } else if (tot <= tol) oracle_fail("C20", "forced decode failed (%d) although the valid fragments are within tolerance: be=%d (%d,%d,%d) missing %llx damaged %llx", rc, c.be, c.k, c.m, c.hd, (unsigned long long)gone, (unsigned long long)bad);
+            for (int i = 0; i < nc; i++) free(copies[i]);
+            stat_add("force.sweep_cases", 1);
+            if (bad == 0) break;
+        }
+    }
+    stripe_free(&s);
 }
 
 /* ======================================================================= args (C13) */
